@@ -1,26 +1,33 @@
 //! C09 — a time window reports exactly the stream items of one aligned interval.
 //! E-in: every non-decreasing timestamp sequence inside the bound x every (width, slide) is pushed
-//! through a real `CSPARQLWindow<usize>` (items are their own arrival index) and every report is
-//! compared with the statement-level oracle in `reference::window`.
+//! through a real `CSPARQLWindow<usize>` and every report is compared with the statement-level oracle in
+//! `reference::window`. Four families: `base` (items are their own arrival index), `kinds` (every
+//! deterministic / probabilistic assignment of the items: `add_probabilistic_to_window` is a second copy
+//! of the membership / max-close / app_time logic), `labels` (item VALUES repeat, so a value is added to
+//! a window that already holds it) and `offset` (the same streams moved to large timestamps: `scope`
+//! computes in f64).
 use crate::infra::{guarded, Ctx, PropDef, ShardOut};
 use crate::reference::window::{self as refw, Firing};
-use kolibrie::rsp::s2r::{CSPARQLWindow, ContentContainer, Report, ReportStrategy, Tick};
+use kolibrie::rsp::s2r::{CSPARQLWindow, ContentContainer, ProbabilisticOccurrence, Report, ReportStrategy, Tick};
 use kolibrie::rsp::window_runner::{WindowRunner, WindowSpec};
 use serde_json::{json, Value};
+use shared::hybrid::SeedRegistry;
+use shared::triple::Triple;
 use std::collections::BTreeSet;
 use std::sync::{Arc, Mutex};
 
 pub const DEF: PropDef = PropDef {
     id: "C09",
     level: "exploration",
-    rule: "case = (width, slide, non-decreasing timestamp sequence); ALL sequences of length 1..=5 over 0..=8 x width 1..=4 x slide 1..=4 (thorough: length 1..=7 over 0..=12, width/slide 1..=6), in a fixed lexicographic order, sharded by case number. Each case is executed on a fresh real CSPARQLWindow<usize> (TimeDriven tick) through four consumer paths (callback, channel, both at once, WindowRunner::push/drain) with strategy [OnWindowClose] and the full oracle (aligned interval with c<=trigger, strictly increasing trigger times, non-decreasing intervals, and - if all gaps <= slide - every NON-EMPTY closing interval reported exactly once), and additionally with the conjunctions [OnWindowClose,NonEmptyContent] and [OnWindowClose,Periodic(2)] against the first three clauses only. non-trivial = at least one report with non-empty content and >= 2 distinct timestamps; distinct = distinct (width, slide, sequence) among those (cases are pairwise distinct by construction, the count is measured with a hash set)",
+    rule: "case = (family, width, slide, non-decreasing timestamp sequence, item values, item kinds). Family base: ALL sequences of length 1..=5 over 0..=8 x width 1..=4 x slide 1..=4 (thorough: length 1..=7 over 0..=12, width/slide 1..=6), in a fixed lexicographic order, sharded by case number; items are their own arrival index. Each case is executed on a fresh real CSPARQLWindow<usize> (TimeDriven tick) through four consumer paths (callback, channel, both at once, WindowRunner::push/drain) with strategy [OnWindowClose] and the full oracle (aligned interval with c<=trigger, strictly increasing trigger times, non-decreasing intervals, and - if all gaps <= slide - every NON-EMPTY closing interval reported exactly once), and additionally with the conjunctions [OnWindowClose,NonEmptyContent], [OnWindowClose,Periodic(2)] (four paths), [OnWindowClose,OnContentChange] (callback and WindowRunner) and [OnWindowClose,NonEmptyContent,Periodic(3)] (callback) against the first three clauses only. Family kinds: the same streams of length <= 4 (thorough 5) x EVERY non-empty subset of the arrivals fed through add_probabilistic_to_window (ProbabilisticOccurrence with a fresh seed from a SeedRegistry) instead of add_to_window, paths callback+channel and WindowRunner::add_probabilistic_to_window, full oracle (content.iter() yields both kinds). Family labels: the same streams of length 2..=5 (thorough 6) x every assignment of item VALUES over 2 (thorough 3) labels up to renaming in which some value repeats; the oracle is the same statement over value sets (check_values: two intervals may have equal contents, 'exactly once' is decided by the unique order-preserving matching of non-empty reports to closing non-empty intervals). Family offset: the streams of length <= 4 (thorough 5) moved by B in {10^6+1, 1_700_000_000_003, 2^53-20} (B is not a multiple of most slides, so alignment differs from the base family), all-deterministic on callback and WindowRunner and all-probabilistic on callback+channel. non-trivial = at least one report with non-empty content and >= 2 distinct timestamps; distinct = distinct (family, width, slide, sequence, values, kinds) among those (the count is measured with a hash set)",
     assumptions: &[
-        "bounds: timestamps 0..=8 (thorough 0..=12), stream length <= 5 (thorough 7), width and slide 1..=4 (thorough 1..=6); nothing beyond is claimed",
-        "a report is attributed to the add_to_window call during which the consumer received it; its triggering timestamp is that call's timestamp",
+        "bounds: timestamps 0..=8 (thorough 0..=12; kinds/labels/offset families 0..=8 in both tiers, offset family plus B), stream length <= 5 (thorough 7; kinds and offset 4/5, labels 5/6), width and slide 1..=4 (thorough 1..=6, new families 1..=4); nothing beyond is claimed - in particular no timestamp >= 2^53 is fed (scope() computes in f64)",
+        "a report is attributed to the add_to_window / add_probabilistic_to_window call during which the consumer received it; its triggering timestamp is that call's timestamp",
         "the completeness clause is demanded only for intervals that hold at least one item (DESIGN.md C09: an empty interval that never opened need not be reported) and only for strategy [OnWindowClose]",
-        "report strategies without OnWindowClose report still-open windows by design and are outside the statement (c <= trigger time cannot hold); Tick::TupleDriven/BatchDriven never report and are not enumerated",
-        "[OnWindowClose,OnContentChange] is NOT enumerated: Report::report mutates last_change while filtering a HashMap iteration, so which window reports depends on the per-process hash seed (observed: identical re-executions differ); a check of it cannot be deterministic. It can be replayed by hand (strategies=OnWindowClose+OnContentChange)",
-        "reference model: harness/src/reference/window.rs (self-tested on hand-computed cases)",
+        "report strategies without OnWindowClose report still-open windows by design and are outside the statement (c <= trigger time cannot hold); Tick::TupleDriven/BatchDriven never report and are not enumerated; flush() reports a merged content by design and is not called",
+        "[OnWindowClose,OnContentChange]: Report::report mutates last_change while filtering a HashMap iteration, so WHICH closed window reports depends on the hash order and identical re-executions differ; only the three safety clauses are judged (they must hold under every order); because run-to-run variation is a trait of this strategy, a failing observation is recorded as a verdict without demanding that it recurs (how many recur in 4 re-executions is counted), and a replay executes the case up to 512 times until a failing observation shows",
+        "a window content is a SET of items: an item value that arrives twice inside one interval is one element of the report (labels family); nothing is demanded about ContentContainer's per-item timestamps, is_deterministic() or probabilistic_occurrences()",
+        "reference model: harness/src/reference/window.rs (check and its generalisation check_values, both self-tested on hand-computed cases; on the base family both are evaluated and must agree, otherwise exit 2)",
     ],
     run,
     replay,
@@ -43,8 +50,10 @@ enum Strat {
     CloseNonEmpty,
     ClosePeriodic2,
     CloseOnChange,
+    CloseNonEmptyPeriodic3,
 }
 const STRATS: [Strat; 3] = [Strat::Close, Strat::CloseNonEmpty, Strat::ClosePeriodic2];
+const ALL_STRATS: [Strat; 5] = [Strat::Close, Strat::CloseNonEmpty, Strat::ClosePeriodic2, Strat::CloseOnChange, Strat::CloseNonEmptyPeriodic3];
 
 impl Strat {
     fn list(self) -> Vec<ReportStrategy> {
@@ -53,6 +62,7 @@ impl Strat {
             Strat::CloseNonEmpty => vec![ReportStrategy::OnWindowClose, ReportStrategy::NonEmptyContent],
             Strat::ClosePeriodic2 => vec![ReportStrategy::OnWindowClose, ReportStrategy::Periodic(2)],
             Strat::CloseOnChange => vec![ReportStrategy::OnWindowClose, ReportStrategy::OnContentChange],
+            Strat::CloseNonEmptyPeriodic3 => vec![ReportStrategy::OnWindowClose, ReportStrategy::NonEmptyContent, ReportStrategy::Periodic(3)],
         }
     }
     fn name(self) -> &'static str {
@@ -61,11 +71,15 @@ impl Strat {
             Strat::CloseNonEmpty => "OnWindowClose+NonEmptyContent",
             Strat::ClosePeriodic2 => "OnWindowClose+Periodic(2)",
             Strat::CloseOnChange => "OnWindowClose+OnContentChange",
+            Strat::CloseNonEmptyPeriodic3 => "OnWindowClose+NonEmptyContent+Periodic(3)",
         }
     }
     fn parse(s: &str) -> Option<Strat> {
-        // CloseOnChange is replayable by hand but not enumerated (see DEF.assumptions)
-        [Strat::Close, Strat::CloseNonEmpty, Strat::ClosePeriodic2, Strat::CloseOnChange].into_iter().find(|x| x.name() == s)
+        ALL_STRATS.into_iter().find(|x| x.name() == s)
+    }
+    /// which report is chosen depends on the per-map hash order (see DEF.assumptions)
+    fn order_dependent(self) -> bool {
+        self == Strat::CloseOnChange
     }
 }
 fn path_name(p: Path) -> &'static str {
@@ -80,19 +94,54 @@ fn parse_path(s: &str) -> Option<Path> {
     PATHS.iter().copied().find(|p| path_name(*p) == s)
 }
 
+/// one enumerated stream
+#[derive(Clone, Debug, PartialEq, Eq, Hash)]
+struct Case {
+    family: &'static str,
+    width: usize,
+    slide: usize,
+    /// absolute timestamps, non-decreasing
+    ts: Vec<usize>,
+    /// the item fed at arrival i (its own index, except in the labels family)
+    values: Vec<usize>,
+    /// arrival i is fed through add_probabilistic_to_window
+    prob: Vec<bool>,
+}
+
+impl Case {
+    fn plain(family: &'static str, ts: &[usize], width: usize, slide: usize) -> Case {
+        Case { family, width, slide, ts: ts.to_vec(), values: (0..ts.len()).collect(), prob: vec![false; ts.len()] }
+    }
+    fn identity_values(&self) -> bool {
+        self.values.iter().enumerate().all(|(i, v)| i == *v)
+    }
+}
+
 fn content_of(c: &ContentContainer<usize>) -> BTreeSet<usize> {
     c.iter().copied().collect()
 }
 
 /// Feed the stream to a fresh real window; returns, per registered consumer, the reports in the
 /// order that consumer saw them (two lists for `Path::Both`).
-fn execute(ts: &[usize], width: usize, slide: usize, strat: Strat, path: Path) -> Vec<(&'static str, Vec<Firing>)> {
+fn execute(case: &Case, strat: Strat, path: Path) -> Vec<(&'static str, Vec<Firing>)> {
+    let (width, slide) = (case.width, case.slide);
     let mut firings: Vec<Firing> = Vec::new();
+    // seeds for probabilistic occurrences exactly as RSPEngine::add_probabilistic_to_stream makes them
+    let mut registry = SeedRegistry::new();
+    let mut occurrence = |i: usize| -> ProbabilisticOccurrence<usize> {
+        let event = registry.next_event_key("s", case.ts[i]);
+        let seed_id = registry.register_occurrence(event.clone(), Triple { subject: i as u32, predicate: 0, object: 0 }, 0.5).unwrap_or_else(|_| panic!("harness: SeedRegistry refused an occurrence"));
+        ProbabilisticOccurrence { item: case.values[i], event, seed_id }
+    };
     if path == Path::Runner {
         let mut r: WindowRunner<usize> = WindowRunner::new(WindowSpec { width, slide, report_strategies: strat.list(), tick: Tick::TimeDriven }, "w".to_string());
         r.start_receiver();
-        for (i, &t) in ts.iter().enumerate() {
-            r.push(i, t);
+        for (i, &t) in case.ts.iter().enumerate() {
+            if case.prob[i] {
+                r.add_probabilistic_to_window(occurrence(i));
+            } else {
+                r.push(case.values[i], t);
+            }
             for c in r.drain() {
                 firings.push(Firing { at: i, content: content_of(&c) });
             }
@@ -111,8 +160,12 @@ fn execute(ts: &[usize], width: usize, slide: usize, strat: Strat, path: Path) -
     }
     let rx = if path == Path::Channel || path == Path::Both { Some(w.register()) } else { None };
     let mut chan_firings: Vec<Firing> = Vec::new();
-    for (i, &t) in ts.iter().enumerate() {
-        w.add_to_window(i, t);
+    for (i, &t) in case.ts.iter().enumerate() {
+        if case.prob[i] {
+            w.add_probabilistic_to_window(occurrence(i));
+        } else {
+            w.add_to_window(case.values[i], t);
+        }
         for c in sink.lock().unwrap().drain(..) {
             firings.push(Firing { at: i, content: c });
         }
@@ -129,13 +182,21 @@ fn execute(ts: &[usize], width: usize, slide: usize, strat: Strat, path: Path) -
     }
 }
 
-fn case_json(ts: &[usize], width: usize, slide: usize, strat: Strat, path: Path) -> Value {
-    json!({"width": width, "slide": slide, "ts": ts, "strategies": strat.name(), "path": path_name(path)})
+fn case_json(case: &Case, strat: Strat, path: Path) -> Value {
+    let mut v = json!({"width": case.width, "slide": case.slide, "ts": case.ts, "strategies": strat.name(), "path": path_name(path), "family": case.family});
+    if !case.identity_values() {
+        v["values"] = json!(case.values);
+    }
+    if case.prob.iter().any(|p| *p) {
+        v["probabilistic"] = json!(case.prob);
+    }
+    v
 }
 
 /// structural facts about the case (never about a known defect)
-fn tags(ts: &[usize], width: usize, slide: usize, strat: Strat, path: Path) -> Vec<String> {
-    let mut t = vec![format!("strategies={}", strat.name()), format!("path={}", path_name(path))];
+fn tags(case: &Case, strat: Strat, path: Path) -> Vec<String> {
+    let (ts, width, slide) = (&case.ts[..], case.width, case.slide);
+    let mut t = vec![format!("strategies={}", strat.name()), format!("path={}", path_name(path)), format!("family={}", case.family)];
     t.push(if width < slide { "width_lt_slide" } else if width % slide == 0 { "width_multiple_of_slide" } else { "width_gt_slide_not_multiple" }.to_string());
     if ts.windows(2).any(|w| w[0] == w[1]) {
         t.push("has_duplicate_timestamps".into());
@@ -151,87 +212,152 @@ fn tags(ts: &[usize], width: usize, slide: usize, strat: Strat, path: Path) -> V
     if ts.first() == Some(&0) {
         t.push("first_ts_zero".into());
     }
+    if ts.first().map_or(false, |t0| *t0 >= 1_000_000) {
+        t.push("large_timestamps".into());
+    }
+    if case.prob.iter().all(|p| *p) {
+        t.push("all_items_probabilistic".into());
+    } else if case.prob.iter().any(|p| *p) {
+        t.push("mixed_deterministic_and_probabilistic_items".into());
+    } else {
+        t.push("all_items_deterministic".into());
+    }
+    if !case.identity_values() {
+        t.push("repeated_item_values".into());
+    }
     t
 }
 
 type Observation = Result<Vec<(&'static str, Vec<Firing>)>, String>;
 
-fn observe(ts: &[usize], width: usize, slide: usize, strat: Strat, path: Path) -> Observation {
-    guarded(|| execute(ts, width, slide, strat, path))
+fn observe(case: &Case, strat: Strat, path: Path) -> Observation {
+    guarded(|| execute(case, strat, path))
 }
 
 fn fmt_firings(ts: &[usize], f: &[Firing]) -> Vec<Value> {
     f.iter().map(|x| json!({"trigger_ts": ts[x.at.min(ts.len() - 1)], "arrival": x.at, "items": x.content})).collect()
 }
 
+/// structural facts about the failing observation (which consumer, what kind of call produced a report)
+fn observation_tags(case: &Case, consumer: &str, f: &[Firing]) -> Vec<String> {
+    let mut t = vec![format!("consumer={}", consumer)];
+    // a report handed out by a call whose timestamp equals the previous call's timestamp: with
+    // [OnWindowClose] alone the app_time guard makes this impossible
+    if f.iter().any(|x| x.at > 0 && x.at < case.ts.len() && case.ts[x.at] == case.ts[x.at - 1]) {
+        t.push("has_report_triggered_by_repeated_timestamp".into());
+    }
+    t
+}
+
 /// verdicts for one (case, strategy, path): one per consumer list; Err((symptom, detail, extra tag))
-fn judge(ts: &[usize], width: usize, slide: usize, strat: Strat, obs: &Observation) -> Vec<Result<refw::Stats, (String, String, String)>> {
+fn judge(case: &Case, strat: Strat, obs: &Observation) -> Vec<Result<refw::Stats, (String, String, Vec<String>)>> {
     match obs {
-        Err(p) => vec![Err(("panic".into(), p.clone(), "consumer=none".into()))],
+        Err(p) => vec![Err(("panic".into(), p.clone(), vec!["consumer=none".to_string()]))],
         Ok(lists) => lists
             .iter()
             .map(|(consumer, f)| {
-                refw::check(ts, width, slide, f, strat == Strat::Close).map_err(|(sym, det)| (sym, format!("[{} consumer] {} | all reports seen by it: {}", consumer, det, Value::Array(fmt_firings(ts, f))), format!("consumer={}", consumer)))
+                refw::check_values(&case.ts, &case.values, case.width, case.slide, f, strat == Strat::Close).map_err(|(sym, det)| (sym, format!("[{} consumer] {} | all reports seen by it: {}", consumer, det, Value::Array(fmt_firings(&case.ts, f))), observation_tags(case, consumer, f)))
             })
             .collect(),
     }
 }
 
-/// run one case through every strategy and path; returns the [OnWindowClose]/callback observation
-fn run_case(ts: &[usize], width: usize, slide: usize, out: &mut ShardOut, only: Option<(Strat, Path)>) -> Option<(Vec<Firing>, refw::Stats)> {
+fn fails(case: &Case, strat: Strat, obs: &Observation) -> bool {
+    judge(case, strat, obs).iter().any(|v| v.is_err())
+}
+
+/// run one case through the given (strategy, path) combinations; returns the first [OnWindowClose] observation
+/// `order_tries`: how many executions an order-dependent strategy gets to show a failing observation (1 in the
+/// enumeration, many in replay: whether a recorded failure shows again depends on the hash order)
+fn run_case(case: &Case, out: &mut ShardOut, combos: &[(Strat, Path)], order_tries: usize) -> Option<(Vec<Firing>, refw::Stats)> {
     let mut main: Option<(Vec<Firing>, refw::Stats)> = None;
-    let combos: Vec<(Strat, Path)> = match only {
-        Some(o) => vec![o],
-        None => STRATS.iter().flat_map(|s| PATHS.iter().map(move |p| (*s, *p))).collect(),
-    };
     let mut first_list: Option<(Strat, Vec<Firing>)> = None;
-    {
-        for (strat, path) in combos {
-            if first_list.as_ref().map_or(false, |f| f.0 != strat) {
-                first_list = None;
+    for &(strat, path) in combos {
+        if first_list.as_ref().map_or(false, |f| f.0 != strat) {
+            first_list = None;
+        }
+        let mut obs = observe(case, strat, path);
+        out.count("window_runs", 1);
+        if strat.order_dependent() {
+            let mut n = 1;
+            while n < order_tries && !fails(case, strat, &obs) {
+                obs = observe(case, strat, path);
+                n += 1;
             }
-            let obs = observe(ts, width, slide, strat, path);
-            out.count("window_runs", 1);
-            let verdicts = judge(ts, width, slide, strat, &obs);
-            let mut reexecuted = false;
-            for (k, v) in verdicts.into_iter().enumerate() {
-                match v {
-                    Ok(st) => {
-                        let f = &obs.as_ref().unwrap()[k].1;
-                        // informational only: every consumer path runs the same code on the same stream, so
-                        // the report lists are expected to coincide; the statement does not demand it, hence a counter
+        }
+        let verdicts = judge(case, strat, &obs);
+        // the two reference formulations must agree wherever both apply (unique items, small timestamps)
+        if case.family == "base" {
+            if let Ok(lists) = &obs {
+                for ((_, f), v) in lists.iter().zip(verdicts.iter()) {
+                    let old = refw::check(&case.ts, case.width, case.slide, f, strat == Strat::Close);
+                    if old.is_ok() != v.is_ok() || old.as_ref().ok().map(|s| s.obligations) != v.as_ref().ok().map(|s| s.obligations) {
+                        out.machinery_errors.push(format!("reference models check / check_values disagree on {}: {:?} vs {:?}", case_json(case, strat, path), old.map(|s| s.obligations).map_err(|e| e.0), v.as_ref().map(|s| s.obligations).map_err(|e| e.0.clone())));
+                    }
+                }
+            }
+        }
+        let mut reexecuted = false;
+        for (k, v) in verdicts.into_iter().enumerate() {
+            match v {
+                Ok(st) => {
+                    let f = &obs.as_ref().unwrap()[k].1;
+                    // informational only: every consumer path runs the same code on the same stream, so
+                    // the report lists are expected to coincide; the statement does not demand it, hence a counter
+                    if !strat.order_dependent() {
                         match &first_list {
                             Some(prev) if prev.1 != *f => out.count("consumer_paths_with_different_report_lists", 1),
                             Some(_) => {}
                             None => first_list = Some((strat, f.clone())),
                         }
-                        if strat == Strat::Close {
-                            if main.is_none() {
-                                main = Some((f.clone(), st));
-                            }
-                        } else {
-                            out.count("extra_strategy_reports_checked", f.len() as u64);
+                    }
+                    if strat == Strat::Close {
+                        if main.is_none() {
+                            main = Some((f.clone(), st));
+                        }
+                    } else {
+                        out.count("extra_strategy_reports_checked", f.len() as u64);
+                        if strat.order_dependent() {
+                            out.count("onchange_reports_checked", f.len() as u64);
                         }
                     }
-                    Err((symptom, detail, ctag)) => {
-                        // determinism before verdict
-                        if !reexecuted {
-                            reexecuted = true;
-                            let again = observe(ts, width, slide, strat, path);
+                }
+                Err((symptom, detail, ctag)) => {
+                    // determinism before verdict
+                    if !reexecuted {
+                        reexecuted = true;
+                        if strat.order_dependent() {
+                            // run-to-run variation is a documented trait of this strategy (the hash order decides
+                            // which closed window reports), so a failing observation - an execution of the real code
+                            // that broke a clause which must hold under EVERY order - is a verdict even if it does
+                            // not recur; how often it recurs is recorded
+                            let again = (0..4).filter(|_| fails(case, strat, &observe(case, strat, path))).count() as u64;
+                            out.count("onchange_failures", 1);
+                            out.count(if again > 0 { "onchange_failures_recurring_in_4_reexecutions" } else { "onchange_failures_not_recurring_in_4_reexecutions" }, 1);
+                        } else {
+                            let again = observe(case, strat, path);
                             if again != obs {
-                                out.machinery_errors.push(format!("non-deterministic re-execution of {}: {:?} vs {:?}", case_json(ts, width, slide, strat, path), obs, again));
+                                out.machinery_errors.push(format!("non-deterministic re-execution of {}: {:?} vs {:?}", case_json(case, strat, path), obs, again));
                                 break;
                             }
                         }
-                        let mut t = tags(ts, width, slide, strat, path);
-                        t.push(ctag);
-                        out.fail(case_json(ts, width, slide, strat, path), &symptom, detail, t);
                     }
+                    let mut t = tags(case, strat, path);
+                    t.extend(ctag);
+                    out.fail(case_json(case, strat, path), &symptom, detail, t);
                 }
             }
         }
     }
     main
+}
+
+fn base_combos() -> Vec<(Strat, Path)> {
+    let mut v: Vec<(Strat, Path)> = STRATS.iter().flat_map(|s| PATHS.iter().map(move |p| (*s, *p))).collect();
+    v.push((Strat::CloseOnChange, Path::Callback));
+    v.push((Strat::CloseOnChange, Path::Runner));
+    v.push((Strat::CloseNonEmptyPeriodic3, Path::Callback));
+    v
 }
 
 /// next non-decreasing sequence over 0..=max in lexicographic order; false when exhausted
@@ -250,6 +376,24 @@ fn next_seq(seq: &mut [usize], max: usize) -> bool {
     false
 }
 
+/// next restricted-growth string (values[0] = 0, values[i] <= 1 + max of the earlier ones, < labels):
+/// every assignment of at most `labels` values up to renaming, in lexicographic order
+fn next_rgs(v: &mut [usize], labels: usize) -> bool {
+    let mut i = v.len();
+    while i > 1 {
+        i -= 1;
+        let m = v[..i].iter().copied().max().unwrap_or(0);
+        if v[i] <= m && v[i] + 1 < labels {
+            v[i] += 1;
+            for x in v[i + 1..].iter_mut() {
+                *x = 0;
+            }
+            return true;
+        }
+    }
+    false
+}
+
 fn bounds(thorough: bool) -> (usize, usize, usize) {
     // (max timestamp, max length, max width/slide)
     if thorough {
@@ -259,12 +403,94 @@ fn bounds(thorough: bool) -> (usize, usize, usize) {
     }
 }
 
+pub const OFFSETS: [usize; 3] = [1_000_001, 1_700_000_000_003, (1usize << 53) - 20];
+/// bounds shared by the kinds / labels / offset families in both tiers
+const FAM_MAX_TS: usize = 8;
+const FAM_MAX_WS: usize = 4;
+
+/// counters and vacuity bookkeeping shared by all families
+fn account(case: &Case, main: Option<(Vec<Firing>, refw::Stats)>, out: &mut ShardOut, failures_before: u64, want_sample: bool) {
+    let fam = case.family;
+    let failed = out.failures_total != failures_before;
+    out.count(&format!("{}_cases", fam), 1);
+    let distinct_ts = case.ts.iter().collect::<BTreeSet<_>>().len();
+    let Some((f, st)) = main else { return };
+    if fam == "base" {
+        out.count("reports", f.len() as u64);
+        out.count("reports_nonempty", st.nonempty_firings);
+        out.count("reports_empty", f.len() as u64 - st.nonempty_firings);
+        if f.is_empty() {
+            out.count("cases_without_report", 1);
+        }
+        if st.dense {
+            out.count("cases_all_gaps_le_slide", 1);
+            out.count("closing_nonempty_intervals_demanded", st.obligations);
+        } else {
+            out.count("cases_with_gap_gt_slide", 1);
+        }
+        out.max("max_reports_in_one_case", f.len() as u64);
+    } else {
+        out.count(&format!("{}_reports", fam), f.len() as u64);
+        out.count(&format!("{}_reports_nonempty", fam), st.nonempty_firings);
+        if st.dense {
+            out.count(&format!("{}_closing_nonempty_intervals_demanded", fam), st.obligations);
+        }
+    }
+    if case.prob.iter().any(|p| *p) {
+        // does the family really push probabilistic occurrences through the reporting logic?
+        out.count(&format!("{}_probabilistic_items_fed", fam), case.prob.iter().filter(|p| **p).count() as u64);
+        out.count(&format!("{}_reports_triggered_by_a_probabilistic_item", fam), f.iter().filter(|x| case.prob[x.at]).count() as u64);
+        // a reported interval that holds an item fed as probabilistic (by arrival, via the chosen interval end)
+        let mut with_prob = 0u64;
+        let mut with_both = 0u64;
+        for c in &st.chosen {
+            let members: Vec<usize> = (0..case.ts.len()).filter(|i| case.ts[*i] < *c && case.ts[*i] + case.width >= *c).collect();
+            if members.iter().any(|i| case.prob[*i]) {
+                with_prob += 1;
+                if members.iter().any(|i| !case.prob[*i]) {
+                    with_both += 1;
+                }
+            }
+        }
+        out.count(&format!("{}_reports_holding_a_probabilistic_item", fam), with_prob);
+        out.count(&format!("{}_reports_holding_both_kinds", fam), with_both);
+    }
+    if !case.identity_values() {
+        // does a value really arrive in a window that already holds it (ContentContainer and_modify)?
+        let mut repeated = 0u64;
+        for c in &st.chosen {
+            let members: Vec<usize> = (0..case.ts.len()).filter(|i| case.ts[*i] < *c && case.ts[*i] + case.width >= *c).map(|i| case.values[i]).collect();
+            let distinct = members.iter().collect::<BTreeSet<_>>().len();
+            if distinct < members.len() {
+                repeated += 1;
+            }
+        }
+        out.count("labels_reports_of_an_interval_holding_a_value_twice", repeated);
+        if repeated > 0 {
+            out.count("labels_cases_with_a_value_twice_in_a_reported_interval", 1);
+        }
+        let eq = refw::equal_content_obligations(&case.ts, &case.values, case.width, case.slide);
+        if eq > 0 {
+            out.count("labels_cases_with_two_demanded_intervals_of_equal_content", 1);
+        }
+    }
+    if st.nonempty_firings > 0 && distinct_ts >= 2 {
+        out.nontrivial(&(fam, case.width, case.slide, &case.ts, &case.values, &case.prob));
+    }
+    out.outcome(&(case.width, case.slide, &f.iter().map(|x| (case.ts[x.at], x.content.clone())).collect::<Vec<_>>()));
+    if !failed && want_sample {
+        out.sample(json!({"family": fam, "width": case.width, "slide": case.slide, "ts": case.ts, "values": case.values, "probabilistic": case.prob, "reports": fmt_firings(&case.ts, &f), "interval_ends_chosen_by_oracle": st.chosen, "closing_nonempty_intervals_demanded": st.obligations}));
+    }
+}
+
 fn run(ctx: &Ctx) -> ShardOut {
     let mut out = ShardOut::default();
     let (max_ts, max_len, max_ws) = bounds(ctx.thorough());
     let mut idx: u64 = 0;
     let mut total: u64 = 0;
     let mut completed_len = 0usize;
+    let combos = base_combos();
+    let mut capped = false;
     // smallest bound first (stream length), so that a capped run still completed a stated bound
     'outer: for len in 1..=max_len {
         for width in 1..=max_ws {
@@ -276,34 +502,16 @@ fn run(ctx: &Ctx) -> ShardOut {
                     if ctx.mine(idx) {
                         if idx % 512 == 0 && ctx.expired() {
                             out.capped.push(format!("wall-clock cap hit at stream length {} (all lengths <= {} completed for every width/slide)", len, completed_len));
+                            capped = true;
                             break 'outer;
                         }
                         let before = out.failures_total;
-                        let main = run_case(&seq, width, slide, &mut out, None);
+                        let case = Case::plain("base", &seq, width, slide);
+                        let main = run_case(&case, &mut out, &combos, 1);
                         out.evaluations += 1;
-                        let distinct_ts = seq.iter().collect::<BTreeSet<_>>().len();
-                        if let Some((f, st)) = main {
-                            out.count("reports", f.len() as u64);
-                            out.count("reports_nonempty", st.nonempty_firings);
-                            out.count("reports_empty", f.len() as u64 - st.nonempty_firings);
-                            if f.is_empty() {
-                                out.count("cases_without_report", 1);
-                            }
-                            if st.dense {
-                                out.count("cases_all_gaps_le_slide", 1);
-                                out.count("closing_nonempty_intervals_demanded", st.obligations);
-                            } else {
-                                out.count("cases_with_gap_gt_slide", 1);
-                            }
-                            if st.nonempty_firings > 0 && distinct_ts >= 2 {
-                                out.nontrivial(&(width, slide, &seq));
-                            }
-                            out.outcome(&(width, slide, &f.iter().map(|x| (seq[x.at], x.content.clone())).collect::<Vec<_>>()));
-                            out.max("max_reports_in_one_case", f.len() as u64);
-                            if out.failures_total == before && (idx % 9973 == 1 || (out.samples.is_empty() && st.nonempty_firings >= 2)) {
-                                out.sample(json!({"width": width, "slide": slide, "ts": seq, "reports": fmt_firings(&seq, &f), "interval_ends_chosen_by_oracle": st.chosen, "closing_nonempty_intervals_demanded": st.obligations}));
-                            }
-                        }
+                        out.count("onchange_runs", 2);
+                        let want = idx % 9973 == 1 || (out.samples.is_empty() && main.as_ref().map_or(false, |m| m.1.nonempty_firings >= 2));
+                        account(&case, main, &mut out, before, want);
                         if width < slide {
                             out.count("cases_width_lt_slide", 1);
                         } else if width % slide != 0 {
@@ -328,6 +536,147 @@ fn run(ctx: &Ctx) -> ShardOut {
         out.count("cases_in_bound", total);
     }
     out.max("max_stream_length_completed", completed_len as u64);
+    if capped {
+        out.capped.push("families kinds, labels and offset were not started".into());
+        return out;
+    }
+
+    // --- family kinds: every non-empty subset of the arrivals is fed as a probabilistic occurrence ---
+    let kinds_len = if ctx.thorough() { 5 } else { 4 };
+    let kinds_combos = [(Strat::Close, Path::Both), (Strat::Close, Path::Runner)];
+    let mut fam_total = 0u64;
+    'kinds: for len in 1..=kinds_len {
+        for width in 1..=FAM_MAX_WS {
+            for slide in 1..=FAM_MAX_WS {
+                let mut seq = vec![0usize; len];
+                loop {
+                    for mask in 1u32..(1u32 << len) {
+                        idx += 1;
+                        fam_total += 1;
+                        if !ctx.mine(idx) {
+                            continue;
+                        }
+                        if idx % 512 == 0 && ctx.expired() {
+                            out.capped.push(format!("wall-clock cap hit in family kinds at stream length {}", len));
+                            capped = true;
+                            break 'kinds;
+                        }
+                        let mut case = Case::plain("kinds", &seq, width, slide);
+                        case.prob = (0..len).map(|i| mask & (1 << i) != 0).collect();
+                        let before = out.failures_total;
+                        let main = run_case(&case, &mut out, &kinds_combos, 1);
+                        out.evaluations += 1;
+                        if case.prob.iter().any(|p| !*p) {
+                            out.count("kinds_cases_mixing_both_kinds", 1);
+                        }
+                        let want = idx % 19997 == 3;
+                        account(&case, main, &mut out, before, want);
+                    }
+                    if !next_seq(&mut seq, FAM_MAX_TS) {
+                        break;
+                    }
+                }
+            }
+        }
+    }
+    if ctx.shard == 0 {
+        out.count("kinds_cases_in_bound", fam_total);
+    }
+
+    // --- family labels: item values repeat ---
+    let (labels_len, labels_n) = if ctx.thorough() { (6, 3) } else { (5, 2) };
+    let labels_combos = [(Strat::Close, Path::Callback)];
+    fam_total = 0;
+    if !capped {
+        'labels: for len in 2..=labels_len {
+            for width in 1..=FAM_MAX_WS {
+                for slide in 1..=FAM_MAX_WS {
+                    let mut seq = vec![0usize; len];
+                    loop {
+                        let mut values = vec![0usize; len];
+                        loop {
+                            let distinct = values.iter().collect::<BTreeSet<_>>().len();
+                            if distinct < len {
+                                idx += 1;
+                                fam_total += 1;
+                                if ctx.mine(idx) {
+                                    if idx % 512 == 0 && ctx.expired() {
+                                        out.capped.push(format!("wall-clock cap hit in family labels at stream length {}", len));
+                                        capped = true;
+                                        break 'labels;
+                                    }
+                                    let mut case = Case::plain("labels", &seq, width, slide);
+                                    case.values = values.clone();
+                                    let before = out.failures_total;
+                                    let main = run_case(&case, &mut out, &labels_combos, 1);
+                                    out.evaluations += 1;
+                                    let want = idx % 19997 == 5;
+                                    account(&case, main, &mut out, before, want);
+                                }
+                            }
+                            if !next_rgs(&mut values, labels_n) {
+                                break;
+                            }
+                        }
+                        if !next_seq(&mut seq, FAM_MAX_TS) {
+                            break;
+                        }
+                    }
+                }
+            }
+        }
+        if ctx.shard == 0 {
+            out.count("labels_cases_in_bound", fam_total);
+        }
+    }
+
+    // --- family offset: the same streams at large timestamps ---
+    let offset_len = if ctx.thorough() { 5 } else { 4 };
+    let det_combos = [(Strat::Close, Path::Callback), (Strat::Close, Path::Runner), (Strat::ClosePeriodic2, Path::Callback)];
+    let prob_combos = [(Strat::Close, Path::Both)];
+    fam_total = 0;
+    if !capped {
+        'offset: for len in 1..=offset_len {
+            for (bi, base) in OFFSETS.iter().enumerate() {
+                for width in 1..=FAM_MAX_WS {
+                    for slide in 1..=FAM_MAX_WS {
+                        let mut seq = vec![0usize; len];
+                        loop {
+                            for all_prob in [false, true] {
+                                idx += 1;
+                                fam_total += 1;
+                                if !ctx.mine(idx) {
+                                    continue;
+                                }
+                                if idx % 512 == 0 && ctx.expired() {
+                                    out.capped.push(format!("wall-clock cap hit in family offset at stream length {}", len));
+                                    break 'offset;
+                                }
+                                let ts: Vec<usize> = seq.iter().map(|t| base + t).collect();
+                                let mut case = Case::plain("offset", &ts, width, slide);
+                                case.prob = vec![all_prob; len];
+                                let before = out.failures_total;
+                                let main = run_case(&case, &mut out, if all_prob { &prob_combos } else { &det_combos }, 1);
+                                out.evaluations += 1;
+                                out.count(&format!("offset_cases_base_{}", bi), 1);
+                                if base % slide != 0 {
+                                    out.count("offset_cases_base_not_multiple_of_slide", 1);
+                                }
+                                let want = idx % 19997 == 7;
+                                account(&case, main, &mut out, before, want);
+                            }
+                            if !next_seq(&mut seq, FAM_MAX_TS) {
+                                break;
+                            }
+                        }
+                    }
+                }
+            }
+        }
+        if ctx.shard == 0 {
+            out.count("offset_cases_in_bound", fam_total);
+        }
+    }
     out
 }
 
@@ -340,11 +689,33 @@ fn replay(_ctx: &Ctx, case: &Value) -> ShardOut {
         out.machinery_errors.push(format!("replay file does not describe a C09 case: {}", case));
         return out;
     }
-    let only = match (case["strategies"].as_str().and_then(Strat::parse), case["path"].as_str().and_then(parse_path)) {
-        (Some(s), Some(p)) => Some((s, p)),
-        _ => None,
+    let family = ["base", "kinds", "labels", "offset"].into_iter().find(|f| Some(*f) == case["family"].as_str()).unwrap_or("base");
+    let mut c = Case::plain(family, &ts, width, slide);
+    if let Some(a) = case["values"].as_array() {
+        let v: Vec<usize> = a.iter().filter_map(|x| x.as_u64().map(|y| y as usize)).collect();
+        if v.len() != ts.len() {
+            out.machinery_errors.push(format!("replay file: values and ts differ in length: {}", case));
+            return out;
+        }
+        c.values = v;
+    }
+    if let Some(a) = case["probabilistic"].as_array() {
+        let v: Vec<bool> = a.iter().filter_map(|x| x.as_bool()).collect();
+        if v.len() != ts.len() {
+            out.machinery_errors.push(format!("replay file: probabilistic and ts differ in length: {}", case));
+            return out;
+        }
+        c.prob = v;
+    }
+    // the cross-check against the older reference formulation only applies to unique items at small timestamps
+    if c.family == "base" && (!c.identity_values() || c.prob.iter().any(|p| *p) || ts.last().map_or(false, |t| *t > 1000)) {
+        c.family = "labels";
+    }
+    let combos: Vec<(Strat, Path)> = match (case["strategies"].as_str().and_then(Strat::parse), case["path"].as_str().and_then(parse_path)) {
+        (Some(s), Some(p)) => vec![(s, p)],
+        _ => base_combos(),
     };
-    run_case(&ts, width, slide, &mut out, only);
+    run_case(&c, &mut out, &combos, 512);
     out.evaluations = 1;
     out
 }
